@@ -11,26 +11,28 @@ import (
 )
 
 type qKnobs struct {
-	Depth        int
-	NamedFrags   bool // named fragment spreads
-	InlineFrags  bool
-	Untyped      bool // untyped inline fragments
-	Directives   bool
-	FragDirs     bool // directives on fragments / spreads
-	Variables    bool
-	VarNamedID   bool // may call a variable "id"
-	Aliases      bool
-	AliasShadow  bool // aliases equal to other field names
-	AliasID      bool // alias "id" on a non-id field, or id under an alias
-	Typename     bool
-	RepeatKeys   bool
-	NodeField    bool
-	Mutation     bool
-	MultiOp      int // number of operations (>=1)
-	MaxFields    int
-	FragSameType bool // named fragments only on the exact object type
-	DirLeafOnly  bool // @skip/@include only on leaf fields other than id
-	NoNestedFrag bool // no fragment spread inside a fragment definition
+	Depth         int
+	NamedFrags    bool // named fragment spreads
+	InlineFrags   bool
+	Untyped       bool // untyped inline fragments
+	Directives    bool
+	FragDirs      bool // directives on fragments / spreads
+	Variables     bool
+	VarNamedID    bool // may call a variable "id"
+	Aliases       bool
+	AliasShadow   bool // aliases equal to other field names
+	AliasID       bool // alias "id" on a non-id field, or id under an alias
+	Typename      bool
+	RepeatKeys    bool
+	NodeField     bool
+	Mutation      bool
+	MultiOp       int // number of operations (>=1)
+	MaxFields     int
+	FragSameType  bool // named fragments only on the exact object type
+	DirLeafOnly   bool // @skip/@include only on leaf fields other than id
+	NullVars      bool // nullable variables are sometimes bound to an explicit null
+	ReuseVarNames bool // operations of one document number their variables from v0 again
+	NoNestedFrag  bool // no fragment spread inside a fragment definition
 }
 
 type GenQuery struct {
@@ -43,6 +45,17 @@ type GenQuery struct {
 	OpTexts []string   `json:"operation_texts,omitempty"`
 	OpFrags [][]string `json:"operation_fragments,omitempty"`
 	OpVars  [][]string `json:"operation_variables,omitempty"`
+	// per operation: its own variable values (operations of one document may declare the same
+	// variable name with different types; only the executed operation's values are sent)
+	OpVals []map[string]interface{} `json:"operation_values,omitempty"`
+}
+
+// ValsFor returns the variable values to send when operation i is executed
+func (q *GenQuery) ValsFor(i int) map[string]interface{} {
+	if i >= 0 && i < len(q.OpVals) {
+		return q.OpVals[i]
+	}
+	return q.Vars
 }
 
 type qGen struct {
@@ -113,7 +126,12 @@ func (g *qGen) newVar(typ string, val interface{}) string {
 		}
 	}
 	g.varDefs[name] = typ
-	if !(g.pct(10) && !strings.HasSuffix(typ, "!")) { // sometimes leave a nullable variable unset
+	switch {
+	case !strings.HasSuffix(typ, "!") && g.pct(10): // sometimes leave a nullable variable unset
+	case !strings.HasSuffix(typ, "!") && g.k.NullVars && g.pct(15): // or bind it to an explicit null
+		g.vars[name] = nil
+		g.feats["null-variable"]++
+	default:
 		g.vars[name] = val
 	}
 	return name
@@ -289,6 +307,21 @@ func (g *qGen) selections(t *TypeSpec, depth int, top bool) []string {
 	if t.Kind == "INTERFACE" && g.k.InlineFrags && g.budget > 0 {
 		for _, c := range g.impls(t.Name) {
 			if g.pct(60) {
+				if g.k.NamedFrags && g.pct(35) {
+					// a named fragment declared on an implementer, spread where the interface is selected
+					g.feats["spread-on-impl"]++
+					name := fmt.Sprintf("F%d", g.nfrag)
+					g.nfrag++
+					saved := g.k.NamedFrags
+					if g.k.NoNestedFrag {
+						g.k.NamedFrags = false
+					}
+					body := strings.Join(g.selections(c, depth, false), " ")
+					g.k.NamedFrags = saved
+					g.frags = append(g.frags, fmt.Sprintf("fragment %s on %s { %s }", name, c.Name, body))
+					out = append(out, "..."+name)
+					continue
+				}
 				g.feats["inline-on-impl"]++
 				out = append(out, fmt.Sprintf("... on %s { %s }", c.Name, strings.Join(g.selections(c, depth, false), " ")))
 			}
@@ -362,7 +395,19 @@ func genQuery(r *rand.Rand, f *FedSpec, st *Store, k qKnobs) *GenQuery {
 			g.feats["mutation"]++
 		}
 		before := len(g.frags)
+		if k.ReuseVarNames {
+			g.nvar = 0
+		}
+		if nops > 1 {
+			g.vars = map[string]interface{}{}
+		}
 		text := g.operation(name, mut)
+		if nops > 1 {
+			q.OpVals = append(q.OpVals, g.vars)
+			for n, v := range g.vars {
+				q.Vars[n] = v
+			}
+		}
 		ops = append(ops, text)
 		q.Ops = append(q.Ops, name)
 		q.OpTexts = append(q.OpTexts, text)
